@@ -17,14 +17,14 @@ use truc::record::type_resolver::HostTypeResolver;
 use verif_harness::Rng;
 
 /// lab field types: name, size, align, Copy?
-const TYPES: [(&str, usize, usize, bool); 19] = [
+const TYPES: [(&str, usize, usize, bool); 20] = [
     // real std heap types (values carry JSON escapes); no drop logging for them
     ("String", 24, 8, false), ("Box<str>", 16, 8, false), ("Vec<u8>", 24, 8, false),
     ("P1", 1, 1, true), ("P2", 2, 2, true), ("P4", 4, 4, true), ("P8", 8, 8, true), ("P16", 16, 16, true),
     ("P3", 3, 1, true), ("P12", 12, 4, true), ("P24", 24, 8, true), ("Option<P4>", 8, 4, true),
     ("P32", 32, 32, true),
     ("PNZ", 4, 4, true),
-    ("H", 8, 8, false), ("O3", 3, 1, false), ("A16", 16, 16, false), ("Z", 0, 1, false), ("Z8", 0, 8, false),
+    ("H", 8, 8, false), ("O3", 3, 1, false), ("A16", 16, 16, false), ("Z", 0, 1, false), ("Z8", 0, 8, false), ("H40", 40, 8, false),
 ];
 
 #[derive(Clone)]
@@ -195,6 +195,17 @@ impl<'a> Gen<'a> {
         let code = format!("{{ let s = &{}; {}.clone_from(s); }} flush(out, \"ok\".into());", self.acc(src), self.acc(dst));
         self.op(&format!("clonefrom {} {}", dst.n, src.n), &code);
     }
+    /// clone-assignment in which the clone of one mandatory owning field of the source panics
+    fn clone_from_bomb(&mut self, dst: &mut Reg, src: &Reg) {
+        if src.init.iter().any(|b| !b) || dst.init.iter().any(|b| !b) { return; }
+        let data = self.vs[src.v].data.clone();
+        let cands: Vec<usize> = data.iter().enumerate().filter(|(_, f)| !f.uninit && matches!(f.ty.as_str(), "H" | "O3" | "A16" | "H40")).map(|(i, _)| i).collect();
+        if cands.is_empty() { return; }
+        let fi = *self.rng.pick(&cands);
+        let f = &data[fi];
+        let code = format!("{{ let s = &{s}; let id = s.{f}().id(); CLONE_BOMB.with(|b| *b.borrow_mut() = Some((\"{t}\", id))); let res = std::panic::catch_unwind(std::panic::AssertUnwindSafe(|| {{ {d}.clone_from(s); }})); CLONE_BOMB.with(|b| *b.borrow_mut() = None); match res {{ Ok(_) => flush(out, \"no-panic\".into()), Err(_) => flush(out, \"panic\".into()) }} }}", s = self.acc(src), d = self.acc(dst), f = f.name, t = f.ty);
+        self.op(&format!("clonefrombomb {} {} {}", dst.n, src.n, fi), &code);
+    }
     fn serde(&mut self, r: &Reg, fmt: &str) -> Option<Reg> {
         if r.init.iter().any(|b| !b) { return None; }
         let n = self.next_reg; self.next_reg += 1;
@@ -213,7 +224,7 @@ impl<'a> Gen<'a> {
     fn clone_bomb(&mut self, r: &Reg) {
         if r.init.iter().any(|b| !b) { return; }
         let data = self.vs[r.v].data.clone();
-        let cands: Vec<usize> = data.iter().enumerate().filter(|(_, f)| !f.uninit && matches!(f.ty.as_str(), "H" | "O3" | "A16")).map(|(i, _)| i).collect();
+        let cands: Vec<usize> = data.iter().enumerate().filter(|(_, f)| !f.uninit && matches!(f.ty.as_str(), "H" | "O3" | "A16" | "H40")).map(|(i, _)| i).collect();
         if cands.is_empty() { return; }
         let fi = *self.rng.pick(&cands);
         let f = &data[fi];
@@ -279,6 +290,7 @@ impl<'a> Gen<'a> {
                     self.all_gets(&c);
                     self.all_gets(&r);
                     if self.rng.chance(1, 2) { self.clone_from(&mut c, &r); self.all_gets(&c); }
+                    if self.rng.chance(1, 2) { self.clone_from_bomb(&mut c, &r); self.all_gets(&c); }
                     self.end_of_life(c);
                 }
             }
